@@ -80,9 +80,41 @@ def oracle_roundtrip(res, s, v, prefix: bytes, spec_hex=None):
     return enc
 
 
+STALE_CLASS = "c01-binary-empty-decode-keeps-stale"
+
+
+def finding_listed(klass: str) -> bool:
+    try:
+        return any(f"class={klass} " in line and line.startswith("open:") for line in open(os.path.join(hlib.ROOT, "known_findings.txt")))
+    except OSError:
+        return False
+
+
+def probe_stale_binary(res):
+    """proposals/C01-binary-empty-decode-keeps-stale.md: decoding into a USED object (outside the fresh-object scope of the theorems).
+    Reported as a finding only once the orchestrator has listed the class; until then it is a note in the evidence."""
+    case = {"kind": "stale-binary"}
+    try:
+        b = V.Binary(b"xyz")
+        b.decode(V.Binary(b"").encode())
+        stale = b.get() != b""
+    except Exception:  # noqa: BLE001
+        stale = True
+    res.count(("stale-binary",))
+    if not stale:
+        return
+    if finding_listed(STALE_CLASS):
+        res.violate(STALE_CLASS, 'Binary(b"xyz").decode(bytes 21 00) keeps b"xyz" (zero-length B item decoded into a used object)', case, "b''", "b'xyz'")
+    else:
+        res.notes.append('observation (proposals/C01-binary-empty-decode-keeps-stale.md, not counted): Binary(b"xyz").decode(21 00) keeps b"xyz"; '
+                         "decoding into a used object is outside the fresh-object scope of this check")
+
+
 def replay_case(res, case):
     k = case.get("kind")
-    if k == "roundtrip":
+    if k == "stale-binary":
+        probe_stale_binary(res)
+    elif k == "roundtrip":
         oracle_roundtrip(res, unjs(case["struct"]), unjs(case["val"]), bytes.fromhex(case["prefix"]))
     elif k == "header":
         oracle_header(res, case["code"], case["length"])
@@ -150,7 +182,11 @@ def oracle_set(res, t, elems):
     if held != v:
         res.violate("set-changes-value", "constructor holds a different value than it was given", case, K.show_val(v)[:200], K.show_any(held)[:200])
         return
-    enc = obj.encode()
+    try:
+        enc = obj.encode()
+    except Exception as exc:  # noqa: BLE001
+        res.violate("encode-raises", f"encode() of an accepted value raised {type(exc).__name__}: {exc}", case)
+        return
     if enc != K.own_encode(v):
         res.violate("encode-not-E5", "encode() differs from the E5 byte string", case, K.own_encode(v).hex()[:200], enc.hex()[:200])
     try:
@@ -258,6 +294,7 @@ def main():
     for case in replay_cases:
         replay_case(res, case)
         res.count(("replay", json.dumps(case, sort_keys=True)))
+    probe_stale_binary(res)
 
     # ------------------------------------------------------------------ A. item header: Gen.ItemHeaderVar vs Base.encode_item_header
     lens = [-2, -1, 0, 1, 2, 127, 128, 254, 255, 256, 257, 511, 512, 65534, 65535, 65536, 65537, 16777214, 16777215, 16777216, 16777217, 2 ** 31, 2 ** 32 + 5]
